@@ -152,7 +152,11 @@ Clauses_rt_tsv(ev) ==
       exportable == key = "" \/ (src.omd.has /\ \E k \in 1..Len(src.omd.rows) :
                                    \E e \in SeqSet(src.omd.rows[k]) : e[1] = key /\ e[2] = "l" /\ Len(e[3]) > 0)
       hasKey(k) == \E e \in RowAt(src, "observation", k) : e[1] = key /\ e[2] = "l" /\ Len(e[3]) > 0
-  IN IF IsEmptyTable(src) \/ ~exportable \/ ev.obs.wrote = "skipped" THEN [C03_out_of_domain |-> TRUE]
+      allHave == key = "" \/ \A k \in 1..Len(src.obs) : hasKey(k)
+  IN IF IsEmptyTable(src) \/ ~exportable \/ ev.obs.wrote = "skipped"
+        \* the command's own formatter ('; '.join) needs the category on every observation
+        \/ (ev.args.save_via = "cli" /\ ~allHave)
+     THEN [C03_out_of_domain |-> TRUE]
      ELSE IF ev.obs.wrote # "ok" THEN [C03_write_succeeds |-> FALSE]
      ELSE IF Failed(ev) THEN [C03_text_reads_back |-> FALSE]
      ELSE LET got == ev.post[ev.res] IN
